@@ -86,6 +86,12 @@ func (s *Streamer) Stream(ctx context.Context, sendTransaction SendTransactionFu
 
 //Error 每次使用Stream后需要检测Error
 func (s *Streamer) Error() error {
+	if s.errChan == nil {
+		// The last Stream call failed before a connection (and with it the
+		// reader that reports here) existed; Stream itself returned the error.
+		// Receiving from the nil channel would block forever.
+		return nil
+	}
 	select {
 	case err, ok := <-s.errChan:
 		if ok {
